@@ -33,4 +33,13 @@ theorem c05_both_agreements_every_history (p0 : Policy)
     (r : CRun { S := [], p := p0, w := {}, live := [] } s) : CInv s :=
   crun_inv r (c05_empty_cache p0 h0)
 
+/-- C13 on the combined state: after a maintenance sweep at T that follows any history, every node still mapped (in the table AND
+    tracked by the size policy) is scheduled with its deadline in a bucket correct for T: neither its deadline nor its scheduling
+    lies a full tick behind T -/
+theorem c13_combined_after_sweep (s : CState) (h : CInv s) (T : Nat) (hle : s.w.time ≤ T) (hT : T < Impl.Wheel.two64)
+    (q : Nat × Nat)
+    (hq : q ∈ (csweepWith s (Impl.Wheel.deleteExpired s.w T).2 (Impl.Wheel.deleteExpired s.w T).1).live) :
+    ∃ x : Impl.Wheel.Ent, x.id = q.1 ∧ x.d = q.2 ∧ x.d ≤ x.e ∧ T >>> Impl.Wheel.shift 0 ≤ x.e >>> Impl.Wheel.shift 0 :=
+  Impl.Wheel.c13_mapped_not_overdue h.whl T hle hT q hq
+
 end OtterVerif.Props.C05All
